@@ -331,7 +331,7 @@ func W7PositionsInDocs(maxLen int, sink Sink) {
 // bytes with carry/borrow tricks whose false positives depend on the VALUE of the neighbouring
 // byte (seeded change C06r5-m2: '#' before the quote and ']' before a backslash).
 func W7Adjacent(aligns []int, tails []string, sink Sink) {
-	specials := []string{`"`, `\n`, `\\`, `\u0041`, "\x1f", "\x00"}
+	specials := []string{`"`, `\n`, `\\`, `\u0041`, "\x1f", "\x00", `\"`, `\/`, `\b`, `\f`, `\r`, `\t`} // every short escape: each has its own state in the string machines (C06r9-m1)
 	fill := "abcdefghijklmnopqrstuvwxyz"
 	c := &h.Case{Family: "W7a"}
 	c.DescFn = func(c *h.Case) string {
